@@ -1,10 +1,13 @@
 (* Extraction of the executable model.  ExtrOcamlBasic only: bool, option, list, prod,
    unit, sumbool map to OCaml's; N, positive, nat stay Coq inductives. *)
-From KV Require Import Bytes Crc Chunk Record.
+From KV Require Import Bytes Crc Chunk Record Engine.
 Require Import ExtrOcamlBasic.
 Extraction Language OCaml.
 Extraction "model.ml"
   crc32 take drop len zeros
   df_open df_size df_write df_stage df_flush scan read_at reader_next
   encode_record decode_record decode_value encode_hint decode_hint
-  encode_marker decode_marker disk_size_estimate encoded_len frame.
+  encode_marker decode_marker disk_size_estimate encoded_len frame df_run
+  db_open db_close db_put db_get db_delete db_list_keys db_fold db_stat db_sync
+  new_batch batch_put batch_get batch_delete batch_commit db_merge db_backup db_files
+  lf_crash idx_get mkCfg mkDisk lf_empty.
